@@ -14,6 +14,7 @@ package db
 import (
 	"context"
 	"fmt"
+	"os"
 	"sort"
 	"strings"
 	"sync/atomic"
@@ -31,6 +32,7 @@ const (
 	vfC18SigRegen      = "resync-regenerate-sequences-skips-principal-invalidation"
 	vfC18SigRejected   = "resync-rejected-winning-leaf-hides-document"
 	vfC18SigLateReject = "resync-rejected-leaf-keeps-role-grants"
+	vfC18SigLeafSkipped = "resync-nonwinning-leaf-channels-not-persisted-when-winner-unchanged"
 )
 
 var (
@@ -187,8 +189,6 @@ func (f vfC18Fn) eval(r vfC18Rev) vfC18Eval {
 	return e
 }
 
-func vfC18RevGen(id string) (int, string) { return vfC18ParseRev(id) }
-
 func vfC18ParseRev(id string) (int, string) {
 	i := strings.IndexByte(id, '-')
 	g := 0
@@ -249,6 +249,52 @@ func (d vfC18Doc) winner() *vfC18Rev {
 	return w
 }
 
+// insertedAsWinner: revisions that were the winner right after their own insertion (corpus order).
+func (d vfC18Doc) insertedAsWinner() map[string]bool {
+	out := map[string]bool{}
+	for i := range d.Revs {
+		p := vfC18Doc{Revs: d.Revs[:i+1]}
+		if p.winner().ID == d.Revs[i].ID {
+			out[d.Revs[i].ID] = true
+		}
+	}
+	return out
+}
+
+// leafSkipped: resync will not rewrite the document (the winner evaluates identically under A and
+// B) although a non-winning leaf's stored channels differ from what B produces for it.
+func (s *vfC18Spec) leafSkipped(d vfC18Doc) bool {
+	if s.Regen || len(d.leaves()) < 2 {
+		return false
+	}
+	w := d.winner()
+	if w.Deleted {
+		return false // tombstoned documents are not visited at all (other signature)
+	}
+	ea, eb := s.A.eval(*w), s.B.eval(*w)
+	if eb.Rejected {
+		eb = vfC18Eval{}
+	}
+	if !vfC18Subset(ea.Chans, eb.Chans) || !vfC18Subset(eb.Chans, ea.Chans) || !vfC18MapEqual(ea.Acc, eb.Acc) || !vfC18MapEqual(ea.Rol, eb.Rol) {
+		return false
+	}
+	asWinner := d.insertedAsWinner()
+	for _, l := range d.leaves() {
+		if l.ID == w.ID {
+			continue
+		}
+		var stored []string
+		if !asWinner[l.ID] {
+			stored = s.A.eval(*l).Chans
+		}
+		want := s.B.eval(*l).Chans
+		if !vfC18Subset(stored, want) || !vfC18Subset(want, stored) {
+			return true
+		}
+	}
+	return false
+}
+
 func (d vfC18Doc) history(id string) []string {
 	var out []string
 	for id != "" {
@@ -285,9 +331,12 @@ func vfC18MapEqual(a, b map[string][]string) bool { return vfC18MapSubset(a, b) 
 // shapes lists the known-finding signatures the spec falls into (by the model).
 func (s *vfC18Spec) shapes() []string {
 	var out []string
-	tomb, grantChange, rejWinner, lateRole := false, false, false, false
+	tomb, grantChange, rejWinner, lateRole, leafSkipped := false, false, false, false, false
 	for _, d := range s.Docs {
 		w := d.winner()
+		if s.leafSkipped(d) {
+			leafSkipped = true
+		}
 		if w.Deleted && s.A.DelChan != s.B.DelChan {
 			tomb = true
 		}
@@ -326,6 +375,9 @@ func (s *vfC18Spec) shapes() []string {
 	if lateRole {
 		out = append(out, vfC18SigLateReject)
 	}
+	if leafSkipped {
+		out = append(out, vfC18SigLeafSkipped)
+	}
 	return out
 }
 
@@ -338,6 +390,14 @@ func (s *vfC18Spec) avoid(sig string) {
 		s.Regen = false
 	case vfC18SigLateReject:
 		s.B.RejLate = false
+	case vfC18SigLeafSkipped:
+		var keep []vfC18Doc
+		for _, d := range s.Docs {
+			if !s.leafSkipped(d) {
+				keep = append(keep, d)
+			}
+		}
+		s.Docs = keep
 	case vfC18SigRejected:
 		for di := range s.Docs {
 			d := s.Docs[di]
@@ -857,6 +917,12 @@ func (d *vfC18DB) resync(regen bool) (st vfC18ResyncStats, err error) {
 // vfC18Obs is everything the property compares, in canonical text form (key -> value).
 type vfC18Obs map[string]string
 
+func vfC18Sorted(ss []string) string {
+	out := append([]string{}, ss...)
+	sort.Strings(out)
+	return vfJoin(out)
+}
+
 func vfC18TimedKeys[V any](m map[string]V) string { return vfJoin(vfSortedKeys(m)) }
 
 func (d *vfC18DB) observe(s *vfC18Spec) (vfC18Obs, error) {
@@ -874,7 +940,7 @@ func (d *vfC18DB) observe(s *vfC18Spec) (vfC18Obs, error) {
 			return nil, fmt.Errorf("GetDocument(%s): %w", doc.ID, err)
 		}
 		cur, _ := real.channelsForRevTreeID("")
-		o["doc "+doc.ID+" channels"] = vfJoin(cur.ToArray())
+		o["doc "+doc.ID+" channels"] = vfC18Sorted(cur.ToArray())
 		o["doc "+doc.ID+" winner"] = real.GetRevTreeID()
 		var acc, rol []string
 		for _, name := range vfSortedKeys(real.Access) {
@@ -889,11 +955,8 @@ func (d *vfC18DB) observe(s *vfC18Spec) (vfC18Obs, error) {
 			if l == real.GetRevTreeID() {
 				continue
 			}
-			chans, ok := real.channelsForRevTreeID(l)
-			if ok && len(chans) > 0 {
-				// a leaf that is absent (its revision was rejected) and a leaf without channels are the same to every reader
-				o["doc "+doc.ID+" leaf "+l+" channels"] = vfJoin(chans.ToArray())
-			}
+			chans, _ := real.channelsForRevTreeID(l)
+			o["leaf "+doc.ID+" "+l+" channels"] = vfC18Sorted(chans.ToArray())
 		}
 	}
 	a := d.dbc.Authenticator(d.ctx)
@@ -905,7 +968,7 @@ func (d *vfC18DB) observe(s *vfC18Spec) (vfC18Obs, error) {
 		if role == nil {
 			continue
 		}
-		o["role "+r+" channels"] = vfJoin(role.CollectionChannels(d.scope, d.cname).AllKeys())
+		o["role "+r+" channels"] = vfC18Sorted(role.CollectionChannels(d.scope, d.cname).AllKeys())
 	}
 	for _, u := range s.Users {
 		usr, err := a.GetUser(u.Name)
@@ -944,12 +1007,42 @@ func vfC18Diff(what string, a, b vfC18Obs, an, bn string) []string {
 	}
 	var out []string
 	for _, k := range vfSortedKeys(keys) {
+		if strings.HasPrefix(k, "leaf ") {
+			// non-winning leaves are compared with the model (vfC18LeafDiff): the ordinary write path
+			// does not keep the channels of a leaf that was the winner when written and lost later,
+			// so the from-scratch database is no reference for them
+			continue
+		}
+		if strings.HasSuffix(k, " winner") && (a[k] == "" || b[k] == "") {
+			continue // the document does not exist in one database (every revision rejected there)
+		}
 		if a[k] != b[k] {
 			out = append(out, fmt.Sprintf("%s: %s: %s=%q %s=%q", what, k, an, a[k], bn, b[k]))
 		}
 	}
 	return out
 }
+
+// vfC18LeafDiff: every non-winning leaf of the resynced database carries the channels B produces
+// for that revision (nothing for a revision B rejects).
+func vfC18LeafDiff(s *vfC18Spec, o vfC18Obs) []string {
+	var out []string
+	for _, d := range s.Docs {
+		for _, r := range d.Revs {
+			got, ok := o["leaf "+d.ID+" "+r.ID+" channels"]
+			if !ok {
+				continue
+			}
+			want := vfC18Sorted(s.B.eval(r).Chans)
+			if got != want {
+				out = append(out, fmt.Sprintf("resynced database: conflicting leaf %s %s has channels %s, function B produces %s", d.ID, r.ID, got, want))
+			}
+		}
+	}
+	return out
+}
+
+var vfC18Timing = os.Getenv("VERIF_C18_TIMING") != ""
 
 type vfC18Result struct {
 	Diffs        []string // resynced vs fresh
@@ -959,12 +1052,21 @@ type vfC18Result struct {
 
 // vfC18Execute runs one case against the real code. err is infrastructure only.
 func vfC18Execute(t testing.TB, s *vfC18Spec) (res vfC18Result, err error) {
+	t0 := time.Now()
+	lap := func(what string) {
+		if vfC18Timing {
+			fmt.Printf("C18-TIMING %-28s %v\n", what, time.Since(t0))
+			t0 = time.Now()
+		}
+	}
+	defer lap("teardown")
 	// database 1: corpus under A, then switch to B and resync
 	d1 := vfC18NewDB(t, s.Deflt)
 	defer d1.destroy()
 	if err = d1.open(s.A.JS(), true); err != nil {
 		return res, err
 	}
+	lap("d1 bucket+open A online")
 	if err = d1.createPrincipals(s); err != nil {
 		return res, err
 	}
@@ -974,22 +1076,30 @@ func vfC18Execute(t testing.TB, s *vfC18Spec) (res vfC18Result, err error) {
 	if err = d1.touchUsers(s); err != nil {
 		return res, err
 	}
+	lap("d1 principals+load+touch")
 	d1.closeCtx()
+	lap("d1 close")
 	if err = d1.open(s.B.JS(), false); err != nil {
 		return res, err
 	}
+	lap("d1 open B offline")
 	if res.First, err = d1.resync(s.Regen); err != nil {
 		return res, err
 	}
+	lap("d1 resync")
 	d1.closeCtx()
+	lap("d1 close")
 	if err = d1.open(s.B.JS(), true); err != nil {
 		return res, err
 	}
+	lap("d1 open B online")
 	o1, err := d1.observe(s)
 	if err != nil {
 		return res, err
 	}
+	lap("d1 observe")
 	d1.closeCtx()
+	lap("d1 close")
 
 	// database 2: the same revisions under B from the start
 	d2 := vfC18NewDB(t, s.Deflt)
@@ -1008,15 +1118,19 @@ func vfC18Execute(t testing.TB, s *vfC18Spec) (res vfC18Result, err error) {
 		return res, err
 	}
 	d2.closeCtx()
+	lap("d2 all")
 	res.Diffs = vfC18Diff("resynced database differs from the database that always ran B", o1, o2, "resynced", "fresh")
+	res.Diffs = append(res.Diffs, vfC18LeafDiff(s, o1)...)
 
 	// running resync again changes nothing
 	if err = d1.open(s.B.JS(), false); err != nil {
 		return res, err
 	}
+	lap("d1 open B offline (2)")
 	if res.Again, err = d1.resync(false); err != nil {
 		return res, err
 	}
+	lap("d1 resync (2)")
 	d1.closeCtx()
 	if err = d1.open(s.B.JS(), true); err != nil {
 		return res, err
@@ -1025,6 +1139,7 @@ func vfC18Execute(t testing.TB, s *vfC18Spec) (res vfC18Result, err error) {
 	if err != nil {
 		return res, err
 	}
+	lap("d1 open online + observe (2)")
 	if res.Again.Changed != 0 {
 		res.Idempotence = append(res.Idempotence, fmt.Sprintf("second resync reports %d changed documents (processed %d)", res.Again.Changed, res.Again.Processed))
 	}
@@ -1035,7 +1150,7 @@ func vfC18Execute(t testing.TB, s *vfC18Spec) (res vfC18Result, err error) {
 func vfC18Run(t *testing.T, rec *kit.Rec, rt *rapid.T) {
 	s := vfC18GenSpec(rt)
 	var excl []string
-	for round := 0; round < 4; round++ {
+	for round := 0; round < 8; round++ {
 		changed := false
 		for _, sig := range s.shapes() {
 			if kit.Known("C18", sig) {
